@@ -51,7 +51,11 @@ fn lines(plain: bool) -> BoxedStrategy<Vec<Vec<String>>> {
         // lines are read with BufRead::lines: no line breaks inside a line
         s.replace(['\n', '\r'], " ")
     });
-    proptest::collection::vec(proptest::collection::vec(line, 0..=8), 1..=3).boxed()
+    prop_oneof![
+        12 => proptest::collection::vec(proptest::collection::vec(line.clone(), 0..=8), 1..=3),
+        1 => proptest::collection::vec(proptest::collection::vec(line, 0..=40), 1..=5),
+    ]
+    .boxed()
 }
 
 fn is_alpha_or_punct(s: &str) -> bool {
@@ -118,7 +122,7 @@ impl Prop for C20 {
                     any::<u16>(),
                     0u8..5,
                     any::<u16>(),
-                    0u8..=4,
+                    prop_oneof![12 => 0u8..=4, 1 => 5u8..=9],
                     prop_oneof![5 => Just(0u8), 2 => Just(1u8), 2 => Just(3u8), 1 => Just(2u8)],
                     proptest::collection::vec(
                         prop_oneof![
